@@ -1,12 +1,411 @@
-//! C09 — (stub: no ops yet)
+//! C09 — `IonSeries` and the fragment generation of `Parameters::build_from_peptides`
+//!
+//!   pep      := h:seq [n u32 mod…] opt(u32 nterm) opt(u32 cterm) u32(monoisotopic)
+//!   ions pep                                   ->  [k u32…]×6 (a b c x y z, iteration order) | panic
+//!   ionidx [k kind…] min_ion_index bucket [p pep…]  ->  [f (pep_ix u32 mz)…] sorted by (pep_ix, mz bits) | panic
+//!   ionconst tol_micro_da                      ->  u32×4: -(C+O), NH3, (C+O-NH3+N+H), -NH3 as IonSeries uses them
+//!
+//! kind: 0=a 1=b 2=c 3=x 4=y 5=z.  Peptide values are constructed directly (all fields are public).
 use super::Info;
-use crate::proto::{Case, Rng, Tier, Toks};
+use crate::proto::{Case, Out, Rng, Tier, Toks};
+use sage_core::database::{EnzymeBuilder, Parameters};
+use sage_core::enzyme::Position;
+use sage_core::ion_series::{IonSeries, Kind};
+use sage_core::mass::{monoisotopic, H2O, VALID_AA};
+use sage_core::peptide::Peptide;
+use std::sync::Arc;
 
-pub const OPS: &[&str] = &[];
-pub const INFO: Info = Info { rule: "", serial: false };
+pub const OPS: &[&str] = &["ions", "ionidx", "ionconst"];
+pub const INFO: Info = Info {
+    rule: "ions: synthetic Peptide values (fields set directly): directed cases (PEPTIDE, the all-zero-mass peptide that \
+           reads the constants out of IonSeries::new, one modification at every position, terminal modifications, \
+           lengths 0/1/2, modification vectors one shorter / two shorter / longer than the sequence), small-scope \
+           enumeration (every sequence up to length 3 (quick) / 4 (thorough) over {A,G,K,W,'a'} x modification \
+           placement x nterm), and random peptides of length 0..60 over VALID_AA (plus 3% arbitrary bytes), \
+           modifications from a list of real deltas or random (0.5% of slots: magnitudes 1e-30..2e30, sums stay finite), optional termini, monoisotopic consistent \
+           (H2O + residues + mods + termini, computed in f32) in 85% of cases and arbitrary otherwise. \
+           ionidx: 0..6 such peptides, every subset of the six kinds (thorough: all 64 exhaustively x min_ion_index 0..4; \
+           quick: random subsets, incl. duplicates and the empty set), min_ion_index 0..n+1 incl. the boundaries n-2, n-1, n, \
+           bucket sizes 1,2,3,7,8192. non-trivial = ions: sequence length >= 2 (at least one ion per series); \
+           ionidx: at least one fragment stored and at least one ion filtered out or several kinds; distinct by request line",
+    serial: false,
+};
 
-pub fn gen(_rng: &mut Rng, _tier: Tier, _emit: &mut dyn FnMut(Case)) {}
+const KINDS: [Kind; 6] = [Kind::A, Kind::B, Kind::C, Kind::X, Kind::Y, Kind::Z];
 
-pub fn exec(_op: &str, _t: &mut Toks) -> Option<String> {
-    None
+#[derive(Clone)]
+struct Pep {
+    seq: Vec<u8>,
+    mods: Vec<f32>,
+    nterm: Option<f32>,
+    cterm: Option<f32>,
+    mono: f32,
+}
+
+impl Pep {
+    fn consistent_mass(seq: &[u8], mods: &[f32], nterm: Option<f32>, cterm: Option<f32>) -> f32 {
+        let mut m = H2O;
+        for (i, &r) in seq.iter().enumerate() {
+            m += monoisotopic(r) + mods.get(i).copied().unwrap_or(0.0);
+        }
+        m + nterm.unwrap_or_default() + cterm.unwrap_or_default()
+    }
+    fn write(&self, o: &mut Out) {
+        o.bytes(&self.seq).n(self.mods.len());
+        for &m in &self.mods {
+            o.f32(m);
+        }
+        for t in [self.nterm, self.cterm] {
+            match t {
+                None => {
+                    o.n(0);
+                }
+                Some(x) => {
+                    o.n(1).f32(x);
+                }
+            }
+        }
+        o.f32(self.mono);
+    }
+    fn read(t: &mut Toks) -> Option<Pep> {
+        let seq = t.bytes()?;
+        let mods = t.list(|t| t.f32())?;
+        let nterm = t.opt(|t| t.f32())?;
+        let cterm = t.opt(|t| t.f32())?;
+        let mono = t.f32()?;
+        Some(Pep { seq, mods, nterm, cterm, mono })
+    }
+    fn peptide(&self) -> Peptide {
+        Peptide {
+            decoy: false,
+            sequence: Arc::from(self.seq.clone().into_boxed_slice()),
+            modifications: self.mods.clone(),
+            nterm: self.nterm,
+            cterm: self.cterm,
+            monoisotopic: self.mono,
+            missed_cleavages: 0,
+            semi_enzymatic: false,
+            position: Position::Internal,
+            proteins: vec![Arc::from("P1")],
+        }
+    }
+}
+
+fn req_ions(p: &Pep) -> String {
+    let mut o = Out::new();
+    o.raw("ions");
+    p.write(&mut o);
+    o.finish()
+}
+
+fn req_idx(kinds: &[usize], min_idx: usize, bucket: usize, peps: &[Pep]) -> String {
+    let mut o = Out::new();
+    o.raw("ionidx").n(kinds.len());
+    for &k in kinds {
+        o.n(k);
+    }
+    o.n(min_idx).n(bucket).n(peps.len());
+    for p in peps {
+        p.write(&mut o);
+    }
+    o.finish()
+}
+
+const MOD_DELTAS: [f32; 9] =
+    [15.9949, 57.0215, 79.9663, -17.0265, 229.1629, 0.984, 42.0106, -18.0106, 114.0429];
+
+fn simple(seq: &[u8], mods: Vec<f32>, nterm: Option<f32>, cterm: Option<f32>) -> Pep {
+    let mono = Pep::consistent_mass(seq, &mods, nterm, cterm);
+    Pep { seq: seq.to_vec(), mods, nterm, cterm, mono }
+}
+
+fn random_pep(rng: &mut Rng, maxlen: usize) -> Pep {
+    let len = match rng.below(20) {
+        0 => 0,
+        1 => 1,
+        2 => 2,
+        _ => 3 + rng.below(maxlen.saturating_sub(2).max(1)),
+    };
+    let seq: Vec<u8> = (0..len)
+        .map(|_| if rng.chance(3, 100) { rng.below(256) as u8 } else { *rng.pick(&VALID_AA) })
+        .collect();
+    let mod_rate = *rng.pick(&[0u32, 5, 20, 100]);
+    let mlen = match rng.below(25) {
+        0 => len.saturating_sub(1),
+        1 => len.saturating_sub(2),
+        2 => len + 1 + rng.below(3),
+        _ => len,
+    };
+    let mods: Vec<f32> = (0..mlen)
+        .map(|_| {
+            if rng.chance(1, 200) {
+                // large magnitudes (sums stay finite): cancellation / absorption in the cumulative sums
+                (*rng.pick(&[1.0e30f32, -1.0e30, 3.0e7, -3.0e7, 1.0e-30])) * (1.0 + rng.unit() as f32)
+            } else if rng.chance(mod_rate, 100) {
+                if rng.chance(1, 5) {
+                    (rng.unit() * 600.0 - 200.0) as f32
+                } else {
+                    *rng.pick(&MOD_DELTAS)
+                }
+            } else {
+                0.0
+            }
+        })
+        .collect();
+    let term = |rng: &mut Rng| -> Option<f32> {
+        match rng.below(8) {
+            0 => Some(*rng.pick(&MOD_DELTAS)),
+            1 => Some((rng.unit() * 400.0 - 100.0) as f32),
+            2 => Some(if rng.chance(1, 2) { 0.0 } else { -0.0 }),
+            _ => None,
+        }
+    };
+    let nterm = term(rng);
+    let cterm = term(rng);
+    let mono = if rng.chance(85, 100) {
+        Pep::consistent_mass(&seq, &mods, nterm, cterm)
+    } else {
+        match rng.below(3) {
+            0 => 0.0,
+            1 => (rng.unit() * 5000.0) as f32,
+            _ => (rng.unit() * 2.0e6 - 1.0e6) as f32,
+        }
+    };
+    Pep { seq, mods, nterm, cterm, mono }
+}
+
+fn emit_ions(p: &Pep, tag: &'static str, emit: &mut dyn FnMut(Case)) {
+    let n = p.seq.len();
+    let consistent = p.mono.to_bits() == Pep::consistent_mass(&p.seq, &p.mods, p.nterm, p.cterm).to_bits();
+    emit(Case::new(req_ions(p))
+        .tag(tag)
+        .tag_if(n == 0, "ions:empty-sequence")
+        .tag_if(n == 1, "ions:length-1")
+        .tag_if(n >= 1 && p.mods.len() + 1 < n, "ions:mods-too-short")
+        .tag_if(n >= 1 && p.mods.len() + 1 == n, "ions:mods-one-short")
+        .tag_if(p.mods.len() > n, "ions:mods-longer")
+        .tag_if(p.mods.iter().any(|&m| m != 0.0), "ions:modified")
+        .tag_if(p.mods.iter().any(|&m| m.abs() > 1.0e6), "ions:large-magnitude")
+        .tag_if(p.nterm.is_some(), "ions:nterm")
+        .tag_if(p.cterm.is_some(), "ions:cterm")
+        .tag_if(!consistent, "ions:mass-inconsistent")
+        .tag_if(p.seq.iter().any(|b| !b.is_ascii_uppercase()), "ions:non-letter")
+        .nontrivial(n >= 2 && p.mods.len() + 1 >= n));
+}
+
+fn emit_idx(kinds: &[usize], min_idx: usize, bucket: usize, peps: &[Pep], tag: &'static str, emit: &mut dyn FnMut(Case)) {
+    let panics = !kinds.is_empty() && peps.iter().any(|p| p.seq.is_empty() || p.mods.len() + 1 < p.seq.len());
+    let stored: usize = peps.iter().map(|p| kinds.len() * p.seq.len().saturating_sub(1).saturating_sub(min_idx)).sum();
+    let dropped: usize = peps.iter().map(|p| kinds.len() * p.seq.len().saturating_sub(1).min(min_idx)).sum();
+    let mut ks = kinds.to_vec();
+    ks.sort();
+    ks.dedup();
+    emit(Case::new(req_idx(kinds, min_idx, bucket, peps))
+        .tag(tag)
+        .tag_if(kinds.is_empty(), "ionidx:no-kinds")
+        .tag_if(ks.len() != kinds.len(), "ionidx:duplicate-kind")
+        .tag_if(peps.is_empty(), "ionidx:no-peptides")
+        .tag_if(panics, "ionidx:panicking-peptide")
+        .tag_if(min_idx == 0, "ionidx:min0")
+        .tag_if(!panics && stored == 0 && dropped > 0, "ionidx:all-filtered")
+        .tag_if(!panics && peps.iter().any(|p| p.seq.len() >= 2 && p.seq.len() - 2 == min_idx), "ionidx:one-ion-left")
+        .tag_if(ks.iter().any(|&k| k < 3) && ks.iter().any(|&k| k >= 3), "ionidx:n-and-c-kinds")
+        .nontrivial(!panics && stored > 0 && (dropped > 0 || ks.len() > 1)));
+}
+
+pub fn gen(rng: &mut Rng, tier: Tier, emit: &mut dyn FnMut(Case)) {
+    let quick = tier == Tier::Quick;
+    // ---------------------------------------------------------------- ions: directed
+    emit(Case::new("ionconst 100".to_string()).tag("ionconst"));
+    // all residue masses 0 (lower-case bytes), no termini, mass 0: the series ARE the constants
+    emit_ions(&Pep { seq: b"aa".to_vec(), mods: vec![0.0, 0.0], nterm: None, cterm: None, mono: 0.0 }, "ions:directed", emit);
+    for s in [&b""[..], b"A", b"AG", b"PEPTIDE", b"EDITPEP", b"PEPTIDEK", b"LESLIEK", b"ACDEFGHIKLMNPQRSTVWYUO"] {
+        let n = s.len();
+        emit_ions(&simple(s, vec![0.0; n], None, None), "ions:directed", emit);
+        emit_ions(&simple(s, vec![0.0; n], Some(42.0106), None), "ions:directed", emit);
+        emit_ions(&simple(s, vec![0.0; n], None, Some(-0.984)), "ions:directed", emit);
+        emit_ions(&simple(s, vec![0.0; n], Some(229.1629), Some(17.0265)), "ions:directed", emit);
+        // one modification at each position
+        for k in 0..n {
+            let mut mods = vec![0.0; n];
+            mods[k] = 15.9949;
+            emit_ions(&simple(s, mods, None, None), "ions:one-mod-at-k", emit);
+        }
+        // modification vectors of the wrong length
+        for ml in [n.saturating_sub(1), n.saturating_sub(2), n + 1] {
+            let mods: Vec<f32> = (0..ml).map(|i| if i % 2 == 0 { 57.0215 } else { 0.0 }).collect();
+            let mut p = simple(s, mods, None, None);
+            p.mono = Pep::consistent_mass(s, &p.mods, None, None);
+            emit_ions(&p, "ions:mods-length", emit);
+        }
+    }
+    // ---------------------------------------------------------------- ions: small scope
+    let alphabet = [b'A', b'G', b'K', b'W', b'a'];
+    let maxl = if quick { 3 } else { 4 };
+    for len in 1..=maxl {
+        let total = alphabet.len().pow(len as u32);
+        for code in 0..total {
+            let mut c = code;
+            let seq: Vec<u8> = (0..len)
+                .map(|_| {
+                    let x = alphabet[c % alphabet.len()];
+                    c /= alphabet.len();
+                    x
+                })
+                .collect();
+            for placement in 0..(1usize << len) {
+                let mods: Vec<f32> = (0..len).map(|i| if (placement >> i) & 1 == 1 { 15.9949 } else { 0.0 }).collect();
+                for nterm in [None, Some(42.0106f32)] {
+                    emit_ions(&simple(&seq, mods.clone(), nterm, None), "ions:small-scope", emit);
+                }
+            }
+        }
+    }
+    // ---------------------------------------------------------------- ions: random
+    let n_rand = if quick { 3000 } else { 150_000 };
+    for _ in 0..n_rand {
+        let p = random_pep(rng, if quick { 40 } else { 60 });
+        emit_ions(&p, "ions:random", emit);
+    }
+
+    // ---------------------------------------------------------------- ionidx: directed
+    let pepk = simple(b"PEPTIDEK", vec![0.0; 8], None, None);
+    let short = simple(b"AG", vec![0.0; 2], None, None);
+    let one = simple(b"K", vec![0.0], None, None);
+    let modp = simple(b"LESLIEK", vec![0.0, 0.0, 79.9663, 0.0, 0.0, 0.0, 229.1629], Some(229.1629), None);
+    for min_idx in 0..=9 {
+        emit_idx(&[1, 4], min_idx, 8192, &[pepk.clone(), short.clone(), one.clone(), modp.clone()], "ionidx:directed", emit);
+        emit_idx(&[4], min_idx, 2, &[pepk.clone()], "ionidx:directed", emit);
+        emit_idx(&[1], min_idx, 3, &[pepk.clone()], "ionidx:directed", emit);
+        emit_idx(&[0, 1, 2, 3, 4, 5], min_idx, 7, &[modp.clone(), pepk.clone()], "ionidx:directed", emit);
+    }
+    emit_idx(&[1, 1, 4], 2, 8192, &[pepk.clone()], "ionidx:directed", emit);
+    emit_idx(&[], 0, 8192, &[pepk.clone()], "ionidx:directed", emit);
+    emit_idx(&[1, 4], 0, 8192, &[], "ionidx:directed", emit);
+    emit_idx(&[1, 4], 2, 8192, &[pepk.clone(), simple(b"", vec![], None, None)], "ionidx:directed", emit);
+    emit_idx(&[], 2, 8192, &[simple(b"", vec![], None, None)], "ionidx:directed", emit);
+    // two identical peptides: same m/z, different index
+    emit_idx(&[1, 4], 1, 1, &[pepk.clone(), pepk.clone(), pepk.clone()], "ionidx:directed", emit);
+    // ---------------------------------------------------------------- ionidx: every kind subset
+    if !quick {
+        for mask in 0..64usize {
+            let kinds: Vec<usize> = (0..6).filter(|k| (mask >> k) & 1 == 1).collect();
+            for min_idx in 0..=4 {
+                let peps: Vec<Pep> = (0..3).map(|_| random_pep(rng, 10)).filter(|p| p.seq.len() >= 1 && p.mods.len() + 1 >= p.seq.len()).collect();
+                emit_idx(&kinds, min_idx, *rng.pick(&[1, 2, 3, 7, 8192]), &peps, "ionidx:all-subsets", emit);
+            }
+        }
+    }
+    // ---------------------------------------------------------------- ionidx: random
+    let n_idx = if quick { 1200 } else { 40_000 };
+    for _ in 0..n_idx {
+        let mut kinds: Vec<usize> = match rng.below(10) {
+            0 => vec![1, 4],
+            1 => vec![],
+            _ => {
+                let mask = rng.below(64);
+                (0..6).filter(|k| (mask >> k) & 1 == 1).collect()
+            }
+        };
+        if rng.chance(1, 12) && !kinds.is_empty() {
+            let d = *rng.pick(&kinds);
+            kinds.push(d);
+        }
+        rng.shuffle(&mut kinds);
+        let np = rng.below(7);
+        let allow_bad = rng.chance(1, 15);
+        let mut peps = Vec::new();
+        while peps.len() < np {
+            let p = random_pep(rng, 14);
+            if !allow_bad && (p.seq.is_empty() || p.mods.len() + 1 < p.seq.len()) {
+                continue;
+            }
+            peps.push(p);
+        }
+        let min_idx = match rng.below(4) {
+            0 => rng.below(4),
+            1 if !peps.is_empty() => {
+                // boundary of one of the peptides: n-2, n-1, n
+                let n = rng.pick(&peps).seq.len();
+                (n + rng.below(3)).saturating_sub(2)
+            }
+            2 => 2,
+            _ => rng.below(18),
+        };
+        let bucket = *rng.pick(&[1usize, 2, 3, 7, 8192]);
+        emit_idx(&kinds, min_idx, bucket, &peps, "ionidx:random", emit);
+    }
+}
+
+pub fn exec(op: &str, t: &mut Toks) -> Option<String> {
+    match op {
+        "ions" => {
+            let p = Pep::read(t)?;
+            if !t.done() {
+                return None;
+            }
+            let pep = p.peptide();
+            let mut o = Out::new();
+            for kind in KINDS {
+                let v: Vec<f32> = IonSeries::new(&pep, kind).map(|ion| ion.monoisotopic_mass).collect();
+                o.n(v.len());
+                for x in v {
+                    o.f32(x);
+                }
+            }
+            Some(o.finish())
+        }
+        "ionconst" => {
+            let _tol = t.usize()?;
+            if !t.done() {
+                return None;
+            }
+            // residues of mass 0 (not A..Z), no modifications, no termini, mass 0:
+            // the first ion of each series is the start constant itself (x + 0.0 = x)
+            let pep = Pep { seq: b"aa".to_vec(), mods: vec![0.0, 0.0], nterm: None, cterm: None, mono: 0.0 }.peptide();
+            let mut o = Out::new();
+            for kind in [Kind::A, Kind::C, Kind::X, Kind::Z] {
+                let v: Vec<f32> = IonSeries::new(&pep, kind).map(|ion| ion.monoisotopic_mass).collect();
+                o.f32(*v.first()?);
+            }
+            Some(o.finish())
+        }
+        "ionidx" => {
+            let kinds = t.list(|t| t.usize())?;
+            let min_ion_index = t.usize()?;
+            let bucket_size = t.usize()?;
+            let peps = t.list(Pep::read)?;
+            if !t.done() || bucket_size == 0 {
+                return None;
+            }
+            let ion_kinds: Vec<Kind> = kinds.iter().map(|&k| KINDS.get(k).copied()).collect::<Option<Vec<_>>>()?;
+            let params = Parameters {
+                bucket_size,
+                enzyme: EnzymeBuilder::default(),
+                peptide_min_mass: 0.0,
+                peptide_max_mass: 1.0e9,
+                ion_kinds,
+                min_ion_index,
+                static_mods: Default::default(),
+                variable_mods: Default::default(),
+                max_variable_mods: 2,
+                decoy_tag: "rev_".into(),
+                generate_decoys: false,
+                fasta: String::new(),
+                prefilter_chunk_size: 0,
+                prefilter: false,
+                prefilter_low_memory: true,
+            };
+            let db = params.build_from_peptides(peps.iter().map(|p| p.peptide()).collect());
+            let mut frags: Vec<(u32, u32)> = db.fragments.iter().map(|f| (f.peptide_index.0, f.fragment_mz.to_bits())).collect();
+            frags.sort();
+            let mut o = Out::new();
+            o.n(frags.len());
+            for (i, m) in frags {
+                o.n(i).n(m);
+            }
+            Some(o.finish())
+        }
+        _ => None,
+    }
 }
